@@ -40,7 +40,7 @@ def log(msg):
 
 # --------------------------------------------------------------------------- context
 class Ctx:
-    def __init__(self, prop, tier, seed):
+    def __init__(self, prop, tier, seed, clean_replays=True):
         self.prop = prop
         self.tier = tier
         self.seed = seed
@@ -48,8 +48,9 @@ class Ctx:
         self.run = os.path.join(ROOT, "run", prop)
         shutil.rmtree(self.run, ignore_errors=True)
         os.makedirs(self.run)
+        self.trace_src = {}
         rdir = os.path.join(ROOT, "replays")
-        if os.path.isdir(rdir):
+        if clean_replays and os.path.isdir(rdir):
             for f in os.listdir(rdir):
                 if f.startswith(prop + "-"):
                     os.remove(os.path.join(rdir, f))
@@ -533,6 +534,11 @@ def write_replay(ctx, viol):
             "why": viol["why"], "observed": viol["rec"]}
     h = hashlib.sha1(json.dumps(body["vector"], sort_keys=True).encode()).hexdigest()[:12]
     path = os.path.join(ROOT, "replays", "%s-%s.json" % (ctx.prop, h))
+    if viol.get("history"):
+        # the violation needs the calls made before it: keep the whole vector sequence next to the replay file
+        hfile = "%s-%s.history.ndjson" % (ctx.prop, h)
+        shutil.copyfile(viol["history"][0], os.path.join(ROOT, "replays", hfile))
+        body["history"] = {"file": hfile, "line": viol["history"][1]}
     with open(path, "w") as f:
         json.dump(body, f)
     return path
